@@ -66,3 +66,9 @@ CASES = [
       "    rhoY += (dt/ll)*(numpy.tensordot(RR,rho1)) + dt*IR/numpy.real(L)",
       "    rhoY += (dt/ll)*numpy.einsum('abcd,cd->ab', RR, rho1) + dt*IR/numpy.real(L)"),
 ]
+
+CASES += [
+    m("dephasing factors computed once per object (tensor form)", "C02-F", P,
+      "        if self.has_PDeph:\n            \n            self._BOOT_DEPH()\n            \n            IR = 0.0",
+      "        if self.has_PDeph:\n            \n            if not hasattr(self, \"expo\"):\n                self._BOOT_DEPH()\n            \n            IR = 0.0"),
+]
